@@ -38,7 +38,7 @@
 EXTENDS Integers, Sequences, FiniteSets, TLC, Json
 CONSTANTS NP,          \* points of the universe used (4..6)
           MaxExtra,    \* observations added after the construction
-          Kinds,       \* constructions enabled: subset of {"polar", "polarA", "inter", "resect", "resectA", "trilat", "ddb", "trav"}
+          Kinds,       \* constructions enabled: subset of {"polar", "polarA", "polarZ", "inter", "interZ", "resect", "resectA", "trilat", "ddb", "trav"}
           Keep, Seed   \* thinning of the emitted cases
 
 (* distances are written with from < to; universe: lattice coordinates in units of 100 m *)
@@ -61,6 +61,7 @@ OffCircle(p, a, b, c) == Abs(InCircle(a, b, c, p)) >= 400       \* p is well off
 (* observations *)
 Dir(s, t) == [t |-> "direction", from |-> s, to |-> t, to2 |-> 0]
 Dist(a, b) == [t |-> "distance", from |-> a, to |-> b, to2 |-> 0]
+Az(s, t) == [t |-> "azimuth", from |-> s, to |-> t, to2 |-> 0]              \* a bearing that needs no orientation (AcordAzimuth)
 Ang(s, bs, fs) == [t |-> "angle", from |-> s, to |-> bs, to2 |-> fs]          \* the angle at s from the backsight bs to the foresight fs
 DistU(a, b) == IF a < b THEN Dist(a, b) ELSE Dist(b, a)
 AllObs == {o \in {Dir(s, t) : s \in Pt, t \in Pt} : o.from # o.to} \cup {o \in {Dist(a, b) : a \in Pt, b \in Pt} : o.from < o.to}
@@ -75,6 +76,7 @@ HasDist(O, a, b) == Dist(a, b) \in O \/ Dist(b, a) \in O
 Oriented(O, K, s) == s \in K /\ \E q \in K \ {s} : Dir(s, q) \in O
 Bearing(O, K, s, p) == \/ Oriented(O, K, s) /\ Dir(s, p) \in O
                        \/ s \in K /\ \E q \in K \ {s} : Ang(s, q, p) \in O \/ Ang(s, p, q) \in O        \* an angle with one arm to a known point
+                       \/ s \in K /\ Az(s, p) \in O
 Inner(O, p, a, b) == (Dir(p, a) \in O /\ Dir(p, b) \in O) \/ Ang(p, a, b) \in O \/ Ang(p, b, a) \in O
 Cos2(a, b, s, p) == LET d == DE(a, b) * DE(s, p) + DN(a, b) * DN(s, p) IN 100 * d * d >= 9 * N2(a, b) * N2(s, p)   \* s-p is well off the perpendicular of a-b
 RPolar(O, K, p) == \E s \in K : Bearing(O, K, s, p) /\ HasDist(O, s, p)
@@ -119,6 +121,11 @@ Trilat == "trilat" \in Kinds /\ extra = 0 /\
 Resect == "resect" \in Kinds /\ extra = 0 /\
           \E p \in Pt \ Known, a, b, c \in Known : /\ a < b /\ b < c /\ OffCircle(p, a, b, c) /\ Wide(p, a, b) /\ Wide(p, a, c) /\ Wide(p, b, c)
             /\ Step("resect", {p}, {Dir(p, a), Dir(p, b), Dir(p, c)})
+PolarZ == "polarZ" \in Kinds /\ extra = 0 /\
+          \E p \in Pt \ Known, s \in Known : Step("polarZ", {p}, {Az(s, p), DistU(s, p)})
+InterZ == "interZ" \in Kinds /\ extra = 0 /\
+          \E p \in Pt \ Known, s1, s2 \in Known : /\ s1 # s2 /\ Wide(p, s1, s2)
+            /\ \E q2 \in Known \ {s2} : Step("interZ", {p}, {Az(s1, p), Dir(s2, q2), Dir(s2, p)})          \* an azimuth and an oriented direction
 ResectA == "resectA" \in Kinds /\ extra = 0 /\
            \E p \in Pt \ Known, a, b, c \in Known : /\ a < b /\ b < c /\ OffCircle(p, a, b, c) /\ Wide(p, a, b) /\ Wide(p, a, c) /\ Wide(p, b, c)
              /\ Step("resectA", {p}, {Ang(p, a, b), Ang(p, b, c)})
@@ -130,14 +137,14 @@ Trav == "trav" \in Kinds /\ extra = 0 /\
             /\ a # b /\ Wide(p, a, q) /\ Wide(q, p, b)
             /\ Step("trav", {p, q}, TravObs(a, p, q, b))
 (* further consistent observations between arbitrary points, in increasing order so that a set is generated once *)
-Code(o) == (IF o.t = "direction" THEN 0 ELSE IF o.t = "distance" THEN 100 ELSE 200 + 100 * o.to2) + o.from * 10 + o.to
+Code(o) == (IF o.t = "direction" THEN 0 ELSE IF o.t = "distance" THEN 100 ELSE IF o.t = "azimuth" THEN 900 ELSE 200 + 100 * o.to2) + o.from * 10 + o.to
 Extra == /\ built # {} /\ extra < MaxExtra
          /\ \E o \in AllObs \ obs : /\ (o.from \in Known /\ o.to \in Known /\ (o.to2 = 0 \/ o.to2 \in Known))
                                     /\ (extra > 0 => Code(o) > Code(hist[Len(hist)].o))
                                     /\ obs' = obs \cup {o} /\ extra' = extra + 1
                                     /\ hist' = Append(hist, [k |-> "extra", o |-> o])
                                     /\ UNCHANGED <<fixed, built>>
-Next == Polar \/ PolarA \/ Inter \/ Trilat \/ Resect \/ ResectA \/ Ddb \/ Trav \/ Extra
+Next == Polar \/ PolarA \/ PolarZ \/ InterZ \/ Inter \/ Trilat \/ Resect \/ ResectA \/ Ddb \/ Trav \/ Extra
 Spec == Init /\ [][Next]_vars
 
 (* ------------------------------------------------------------------ properties *)
